@@ -20,7 +20,7 @@ from hl7apy.parser import parse_segment, parse_message, parse_field
 # ---- op codes ------------------------------------------------------------------------------------------
 (NOP, SET, ADD, IDX, DELI, SETLONG, ADDH, DELN, REM, COPY, SETELEM,
  REATTACH, WRONGCLS, OTHERVER, OTHERLVL, SETWRONG, READ, SETBADVAL, IDXELEMLVL, SETELEMVER, DTCHANGE,
- NESTED, REATTACHBAD, SETDT, SETVALUE, PROXYVAL) = range(26)
+ NESTED, REATTACHBAD, SETDT, SETVALUE, PROXYVAL, SETDTOK) = range(27)
 OPNAMES = ['nop', 'set-by-name', 'add(elem)', 'proxy[i]=v', 'del proxy[i]', 'set-by-long-name', 'add_<child>()+value',
            'del by name', 'children.remove', 'copy from other element', 'set-by-name(elem)',
            'other.add(child of target)', 'add(elem of wrong class)', 'add(elem of other version)',
@@ -28,19 +28,20 @@ OPNAMES = ['nop', 'set-by-name', 'add(elem)', 'proxy[i]=v', 'del proxy[i]', 'set
            'set-by-name(invalid value)', 'proxy[i]=elem of other validation level', 'set-by-name(elem of other version)',
            'change datatype of populated child', 'nested set through the proxy (el.child.sub = v)',
            'other-level element .add(child of target)', 'set-by-name(base datatype object)',
-           'el.value = text with a repeated non-repeatable child', 'el.child.value = value invalid under STRICT']
+           'el.value = text with a repeated non-repeatable child', 'el.child.value = value invalid under STRICT',
+           'set-by-name(base datatype object of the child\'s own datatype)']
 CORE_OPS = [SET, ADD, IDX, DELI]
-FULL_OPS = [SET, ADD, IDX, DELI, SETLONG, ADDH, DELN, REM, COPY, SETELEM, NESTED]
+FULL_OPS = [SET, ADD, IDX, DELI, SETLONG, ADDH, DELN, REM, COPY, SETELEM, NESTED, SETDTOK]
 # operations that are meant to be refused (or that stress attachment) - used by C10 / C12
 REJECT_OPS = [REATTACH, WRONGCLS, OTHERVER, OTHERLVL, SETWRONG, READ, SETBADVAL, IDXELEMLVL, SETELEMVER, DTCHANGE, REATTACHBAD,
               SETDT, SETVALUE, PROXYVAL]
 
 TARGETS = {
     'seg': dict(names=['PID_3', 'PID_5', 'PID_8'], longs=['PATIENT_IDENTIFIER_LIST', 'PATIENT_NAME', 'ADMINISTRATIVE_SEX'],
-                nested=['cx_1', 'xpn_1', None]),
-    'msg': dict(names=['NK1', 'OBX', 'AL1'], longs=[None, None, None], nested=['nk1_1', 'obx_1', 'al1_1']),
+                nested=['cx_1', 'xpn_1', None], dtobj=[None, None, 'IS']),
+    'msg': dict(names=['NK1', 'OBX', 'AL1'], longs=[None, None, None], nested=['nk1_1', 'obx_1', 'al1_1'], dtobj=[None, None, None]),
     'fld': dict(names=['XPN_1', 'XPN_2', 'XPN_7'], longs=['FAMILY_NAME', 'GIVEN_NAME', 'NAME_TYPE_CODE'],
-                nested=['fn_1', None, None]),
+                nested=['fn_1', None, None], dtobj=[None, 'ST', 'ID']),
 }
 NIDX = 3  # repetition indices 0..2
 
@@ -59,6 +60,8 @@ def actions(target, ops, names=None, nidx=None):
             if op == SETLONG and TARGETS[target]['longs'][n] is None:
                 continue
             if op == NESTED and TARGETS[target]['nested'][n] is None:
+                continue
+            if op == SETDTOK and TARGETS[target]['dtobj'][n] is None:
                 continue
             if op in (WRONGCLS, READ, SETVALUE) and n != (names[0] if names else 0):
                 continue   # the child name is irrelevant for these
@@ -180,6 +183,10 @@ def apply_real(target, el, act, step, level, other=None, offered=None, otherbad=
     if op == SETDT:
         from hl7apy.base_datatypes import ST
         setattr(el, name.lower(), ST(tok(step)))
+        return
+    if op == SETDTOK:
+        import hl7apy.base_datatypes as bd
+        setattr(el, name.lower(), getattr(bd, TARGETS[target]['dtobj'][n])(tok(step)))
         return
     if op == SETVALUE:
         # whole-value assignment whose text repeats a child that may occur once (refused under STRICT)
@@ -313,7 +320,7 @@ def apply_model(target, model, act, step, level):
     model = list(model)
     if op == NOP:
         return model
-    if op in (SET, SETLONG, SETELEM, COPY, NESTED):
+    if op in (SET, SETLONG, SETELEM, COPY, NESTED, SETDTOK):
         if op == COPY:
             t = _other_values(target)[name]
         if mine:
